@@ -46,7 +46,7 @@ def pinned_cases():
     return [([], [], c) for c in cs]
 
 
-def sweep_cases():
+def sweep_cases(both=True):
     """Every ordered pair of head constructors: all TyKinds (with the variants that take different branches),
     lifetimes 6x6, consts 4x4; each at the three variances, on a table with two universes."""
     tv, lv = L.ty_var, L.lt_var
@@ -82,7 +82,7 @@ def sweep_cases():
                 for v in (I, CO, CONTRA):
                     if alias and v != I:
                         continue        # alias := fresh unknown, then unknown / dyn
-                    out.append((adt, [], pre + [("SBoth", v, a, b), ("SRelate", v, a, b)]))
+                    out.append((adt, [], pre + ([("SBoth", v, a, b)] if both else []) + [("SRelate", v, a, b)]))
     return out
 
 
@@ -171,7 +171,7 @@ def run(ctx):
     ok, why = ctx.proof_stage("Props.C14", THEOREMS)
     core.build_harness(bins=["infer"])
     r = ctx.rng
-    fams = [("pinned", pinned_cases()), ("sweep", sweep_cases())]
+    fams = [("pinned", pinned_cases()), ("sweep", sweep_cases(both=False))]    # both orders of the sweep: C15
     total = ctx.n(1500, 130000)
     fams.append(("c14-invariant", random_cases(ctx, total // 2, r, PROFILES["c14-invariant"])))
     fams.append(("c14-covariant-lifetime-free", random_cases(ctx, total // 5, r, PROFILES["c14-covariant-lifetime-free"])))
